@@ -342,8 +342,8 @@ def run(ctx):
     from sa.stale import check_no_stale_state
     wfs = [m for c in [base] + writers for m in c.all_methods]
     check_no_stale_state(ctx, "R5.6", wfs, {
-        ("Schema2Base._output_tags", "level_adj"): "indentation offset of a rooted library subtree; reset at every root tag",
-        ("Schema2DF._process_attributes", "attribute"): "the loop variable itself is re-spelled as an id inside the inner loop"},
+        "Schema2Base._output_tags": (1, "`level_adj`: indentation offset of a rooted library subtree; reset at every root tag"),
+        "Schema2DF._process_attributes": (1, "`attribute`: the loop variable itself is re-spelled as an id inside the inner loop")},
         "What is written for one entry then depends on the entries written before it (e.g. a library unit class loses its "
         "description and attributes when an earlier class had library units).")
 
